@@ -13,7 +13,7 @@ import (
 
 // C18 — Key shares are fresh, correctly sized, and backed by the matching private key.
 func TestC18(t *testing.T) {
-	r := mon.New("C18", "parrots, Golang, seeded randomized and generated custom specs x N connections: key_exchange sizes per group from the strictly parsed extension; exactly-once monitor (hash set) over every non-GREASE key_exchange value, client random and session id of the whole run; QUIC hellos carry an empty session id; and for every share a hello carries, a server pinned to that group (CurvePreferences) completes the handshake with data echo (equal secrets). distinct = (target family, group, outcome)")
+	r := mon.New("C18", "parrots, Golang, seeded randomized and generated custom specs x N connections (fresh spec per connection, and one spec object reused for consecutive connections): key_exchange sizes per group from the strictly parsed extension; exactly-once monitor (hash set) over every non-GREASE key_exchange value, client random and session id of the whole run; QUIC hellos carry an empty session id; and for every share a hello carries, a server pinned to that group (CurvePreferences) completes the handshake with data echo (equal secrets). distinct = (target family, group, outcome)")
 	defer r.Finish(t)
 	var targets []Target
 	targets = append(targets, ParrotTargets(true)...)
@@ -143,6 +143,37 @@ func TestC18(t *testing.T) {
 			r.Sample(map[string]any{"target": j.t.Name, "group": fmt.Sprintf("%#04x", j.g), "outcome": outcome})
 		}
 	})
+	// (2b) ONE spec object used for consecutive connections (sequentially: ApplyPreset writes
+	// into the spec): what an earlier connection left in the spec's extension objects must
+	// not be sent again, and every connection must hold the private keys of what it sends
+	for _, tg := range SharedSpecTargets() {
+		for k := 0; k < 4; k++ {
+			scfg := peer.ServerConfig()
+			h := RunCase(tg, GridCase{Server: scfg}, []string{"example.test", "www.example.test"}[k%2], nil, peer.Opts{})
+			for _, hm := range wire.ClientHellos(h.C2S) {
+				if ch, err := wire.ParseClientHello(hm); err == nil {
+					observe(tg.Name, ch, hm)
+					if ch.SNI != nil && *ch.SNI != []string{"example.test", "www.example.test"}[k%2] {
+						r.Violation(map[string]string{"kind": "stale_server_name_from_reused_spec", "target": family(tg.Name)},
+							fmt.Sprintf("%s connection %d: SNI %q on the wire, Config.ServerName is %q", tg.Name, k, *ch.SNI, []string{"example.test", "www.example.test"}[k%2]), nil)
+					}
+				}
+			}
+			outcome := "ok"
+			if !h.OK() {
+				allowed, class := classifyFailure(h)
+				outcome = class
+				if !allowed {
+					r.Violation(map[string]string{"kind": "reused_spec_connection_fails", "target": family(tg.Name)},
+						fmt.Sprintf("%s: connection %d made with the same spec object fails (%s): client=%v server=%v", tg.Name, k, class, h.ClientErr, h.ServerErr), map[string]any{"target": tg.Name, "connection": k})
+				}
+			} else {
+				r.Count("reused_spec_connections_ok", 1)
+			}
+			r.Case(fmt.Sprintf("%s|conn%d|%s", tg.Name, k, outcome), true)
+		}
+	}
+	r.Floor("reused_spec_connections_ok", 20)
 	// (3) QUIC: empty legacy session id
 	for i := 0; i < mon.Pick(400, 3000); i++ {
 		rg := Sub("C18quic", i)
